@@ -65,7 +65,12 @@ func (w *World) takeFork() {
 	}
 	var raw []byte
 	if p, _ := safely(func() {
-		e, err := a.App.ExportAppStateAndValidators(false, nil, nil)
+		// `und export` is a command of a stopped node: a fresh process opens the database and
+		// exports the last committed state. (Exporting from the running application object would
+		// read its check state, i.e. include whatever the mempool connection did since the commit.)
+		exp := &Node{Idx: 101, Cfg: DefaultRefCfg(), DB: a.DB}
+		exp.Open()
+		e, err := exp.App.ExportAppStateAndValidators(false, nil, nil)
 		if err != nil {
 			panic(err)
 		}
